@@ -156,7 +156,7 @@ func (cc *clientCxn) run() {
 			cc.cs.l.Tracef("client %d at %s terminated", cc.cs.id, cc.cxn.RemoteAddr().String())
 			return
 		case csWaitForCommand:
-			if cc.closing {
+			if cc.IsCloseRequested() {
 				cc.queueStateChange(csTerminate, nil)
 			} else {
 				cc.onWaitForCommand()
@@ -182,8 +182,16 @@ func (cc *clientCxn) onWaitForCommand() {
 	cmd, length := cc.parseCommand()
 	if length == 0 {
 		cc.mu.Lock()
-		cc.waiting = true
+		closing := cc.closing
+		if !closing {
+			cc.waiting = true
+		}
 		cc.mu.Unlock()
+		if closing {
+			// a close was requested since run() looked; it found nobody reading, so it
+			// left the socket open and queued the terminate state: do not start to read
+			return
+		}
 
 		n, err := cc.cxn.Read(buffer)
 
